@@ -380,21 +380,30 @@ def stereo_mol_graph_to_rdmol(
             if b_stereo.parity is None:
                 rd_bond.SetStereo(Chem.rdchem.BondStereo.STEREONONE)
 
-            elif (a1, a2) == (new_a1, new_a2):
-                rd_bond.SetStereoAtoms(
-                    map_num_idx_dict[b_stereo.atoms[0]],
-                    map_num_idx_dict[b_stereo.atoms[4]],
-                )
-                rd_bond.SetStereo(Chem.rdchem.BondStereo.STEREOZ)
-
-            elif (a1, a2) == (new_a2, new_a1):
-                rd_bond.SetStereoAtoms(
-                    map_num_idx_dict[b_stereo.atoms[4]],
-                    map_num_idx_dict[b_stereo.atoms[0]],
-                )
-                rd_bond.SetStereo(Chem.rdchem.BondStereo.STEREOZ)
             else:
-                raise Exception(f"something wrong with {b_stereo}")
+                # reference substituent of each end: the first position that
+                # holds an atom (the other one may be a lone pair placeholder)
+                ref1 = 0 if b_stereo.atoms[0] is not None else 1
+                ref2 = 4 if b_stereo.atoms[4] is not None else 5
+                # positions 0/4 and 1/5 are on the same side of the bond
+                if (ref1 == 0) == (ref2 == 4):
+                    rd_bond_stereo = Chem.rdchem.BondStereo.STEREOZ
+                else:
+                    rd_bond_stereo = Chem.rdchem.BondStereo.STEREOE
+
+                if (a1, a2) == (new_a1, new_a2):
+                    rd_bond.SetStereoAtoms(
+                        map_num_idx_dict[b_stereo.atoms[ref1]],
+                        map_num_idx_dict[b_stereo.atoms[ref2]],
+                    )
+                elif (a1, a2) == (new_a2, new_a1):
+                    rd_bond.SetStereoAtoms(
+                        map_num_idx_dict[b_stereo.atoms[ref2]],
+                        map_num_idx_dict[b_stereo.atoms[ref1]],
+                    )
+                else:
+                    raise Exception(f"something wrong with {b_stereo}")
+                rd_bond.SetStereo(rd_bond_stereo)
 
             # if no planar bond neigboring set the bond to double
             if False:
